@@ -47,6 +47,7 @@ class BridgeSys:
         self.running = False
         self.occupied = {}
         self.trace = []
+        self.failed_start = False
         self.msgno = 0
         net.run(self._observe())
 
@@ -86,6 +87,7 @@ class BridgeSys:
             outcome = "OSError"
         except Exception as exc:  # noqa
             outcome = f"{type(exc).__name__}: {exc}"
+        self.failed_start = bool(blocked)
         if blocked:
             if outcome != "OSError":
                 self.fail(f"start-with-port-in-use/{how}", "OSError", outcome)
@@ -112,6 +114,7 @@ class BridgeSys:
             except Exception as exc:
                 self.fail(f"{a}-raises/" + ("running" if self.running else "not-running"), "no exception", f"{type(exc).__name__}: {exc}")
             self.running = False
+            self.failed_start = False
         elif a == "send":
             port = self.ports[step["port"] % self.nports]
             before = self.rig.invocations
@@ -180,8 +183,7 @@ class BridgeSys:
             want_bindable = not self.running and i not in self.occupied
             if bindable(p) != want_bindable:
                 if want_bindable:
-                    self.fail(f"port-left-listening/after-{step['action']}" +
-                              ("/failed-start" if self._why_not_running() == "after-failed-start" or (self.occupied and step["action"] in ("start", "enter")) else ""),
+                    self.fail(f"port-left-listening/after-{step['action']}" + ("/failed-start" if self.failed_start else ""),
                               {"port_index": i, "bindable": True}, {"port_index": i, "bindable": False})
                 elif self.running:
                     self.fail(f"running-but-port-not-bound/after-{step['action']}", {"port_index": i, "bound": True},
